@@ -166,6 +166,38 @@ func RunReplay(out string, seed int64) (*Summary, error) {
 		ln.Conc = map[string]interface{}{"state_carries": signIn, "trail": trail}
 		lines = append(lines, ln)
 	}
+	// a signature vouches for ONE redirect: the genuine (redirect, sig, ts) is accepted first, then the same sig and ts
+	// come back with another in-domain redirect the proxy never signed
+	const other = "https://elsewhere.root.test/oauth2/callback"
+	for i, p := range probes {
+		ts := time.Now().Unix() - 7
+		r1, what := p.send(ts)
+		acted := func(r *world.Resp, host string) bool {
+			u, err := url.Parse(r.Header.Get("Location"))
+			return r.Status/100 == 3 && err == nil && strings.EqualFold(u.Host, host)
+		}
+		want := p.want
+		ln := RLine{Ev: "sigreuse", Case: 97000200 + i, Ep: p.ep, Acted1: acted(r1, want)}
+		q := signed(ts)
+		q.Set("redirect_uri", other)
+		var r2 *world.Resp
+		want2 := "elsewhere.root.test"
+		switch p.ep {
+		case "sign_in":
+			r2 = world.Do(a.Handler, world.NewReq("GET", a.Opts.Host, a.Path("sign_in")+"?"+q.Encode(), nil, []*http.Cookie{cookie()}, ""))
+		case "sign_out":
+			r2 = world.Do(a.Handler, world.NewReq("POST", a.Opts.Host, a.Path("sign_out"), http.Header{"Content-Type": {"application/x-www-form-urlencoded"}},
+				[]*http.Cookie{cookie()}, q.Encode()))
+		default:
+			inner := "http://" + a.Opts.Host + a.Path("sign_in") + "?" + q.Encode()
+			r2 = world.Do(a.Handler, world.NewReq("GET", a.Opts.Host, a.Path("start")+"?redirect_uri="+url.QueryEscape(inner), nil, nil, ""))
+			want2 = idp.Host()
+		}
+		ln.Acted = acted(r2, want2)
+		ln.Conc = map[string]interface{}{"genuine": what, "first": fmt.Sprintf("%d %s", r1.Status, r1.Header.Get("Location")),
+			"same sig and ts with": other, "second": fmt.Sprintf("%d %.300s", r2.Status, r2.Header.Get("Location"))}
+		lines = append(lines, ln)
+	}
 	f, err := os.Create(out)
 	if err != nil {
 		return nil, err
